@@ -4,6 +4,7 @@ import (
 	"encoding/json"
 	"flag"
 	"fmt"
+	"go/token"
 	"go/types"
 	"math/big"
 	"os"
@@ -30,6 +31,7 @@ type World struct {
 	insts          map[string][]*ssa.Function // generic function (by contract key of the origin) -> instantiations
 	repoP          map[string]bool
 	mutatedGlobals map[string]bool
+	escapedGlobals map[string]bool // address used by something other than a load (outside init)
 	allFuncs       map[string]*ssa.Function
 }
 
@@ -60,6 +62,7 @@ func loadWorld(repo, specDir string) (*World, error) {
 		w.repoP[p.PkgPath] = true
 	}
 	w.mutatedGlobals = map[string]bool{}
+	w.escapedGlobals = map[string]bool{}
 	w.allFuncs = map[string]*ssa.Function{}
 	for fn := range ssautil.AllFunctions(prog) {
 		w.allFuncs[fn.String()] = fn
@@ -69,6 +72,14 @@ func loadWorld(repo, specDir string) (*World, error) {
 					if st, ok := in.(*ssa.Store); ok {
 						if g, ok := st.Addr.(*ssa.Global); ok && g.Pkg != nil {
 							w.mutatedGlobals[g.Pkg.Pkg.Name()+"."+g.Name()] = true
+						}
+					}
+					// any use of a package variable's address other than reading it lets it be written indirectly
+					if u, isLoad := in.(*ssa.UnOp); !(isLoad && u.Op == token.MUL) {
+						for _, op := range in.Operands(nil) {
+							if g, ok := (*op).(*ssa.Global); ok && g.Pkg != nil {
+								w.escapedGlobals[g.Pkg.Pkg.Name()+"."+g.Name()] = true
+							}
 						}
 					}
 				}
@@ -116,10 +127,20 @@ func (w *World) newExec() *Exec {
 	x.repoPkgs = w.repoP
 	x.allFuncs = w.allFuncs
 	x.globals = map[string]func(*State) *Value{}
+	x.nonnilGlobals = map[string]bool{}
 	for name, val := range w.db.Globals {
 		name, val := name, val
 		if w.mutatedGlobals[name] {
 			fmt.Fprintf(os.Stderr, "gvc: package variable %s is assigned outside init; its declared initial value is ignored\n", name)
+			continue
+		}
+		if val == "nonnil" && w.escapedGlobals[name] {
+			fmt.Fprintf(os.Stderr, "gvc: the address of package variable %s is used outside init; its declared non-nil value is ignored\n", name)
+			continue
+		}
+		if val == "nonnil" {
+			// handled where the variable is read (instr.go): the loaded value is assumed non-nil
+			x.nonnilGlobals[name] = true
 			continue
 		}
 		x.globals[name] = func(st *State) *Value {
